@@ -519,6 +519,8 @@ class Interp:
                 t = args[1]
                 names = [x.name for x in (t if isinstance(t, tuple) else (t,)) if isinstance(x, Sym)]
                 v = args[0]
+                if isinstance(v, Sym) and '__isa__' in v.attrs:
+                    return any(tn in v.attrs['__isa__'] for tn in names)
                 if isinstance(v, Sym):
                     raise Unknown('isinstance of an opaque value')
                 res = False
